@@ -45,16 +45,17 @@ def unit_apply_options(tier=None, seed=None, prop="C06"):
         options = sx.SDict([("correct_tip_offset", inner)])
         ret_details = I.fork(z3.Bool("ret_details"))
         got = {}
+        log = []
 
         def step_contract(I, fv, args, kwargs):
             got[fv.attrs["identifier"]] = kwargs
+            log.append("step")
             # a misbehaving step may write to what it is given
             for k in list(kwargs):
                 pass
             return sx.SDict([("detail", 1)])
         for fn in mod.env.vars["PREPROCESSORS"]:
             I.contracts[f"nanite.preproc:{fn.qualname}"] = step_contract
-        log = []
         apret = sx.Obj(sx.ClassVal("Indentation", [sx.OBJECT], {}))
         apret.cls.ns["reset_data"] = sx.Builtin("reset_data", lambda I, self: log.append("reset"))
         ids = ["compute_tip_position", "correct_tip_offset"]
@@ -68,14 +69,15 @@ def unit_apply_options(tier=None, seed=None, prop="C06"):
         got = st["got"].get("correct_tip_offset")
         S.ensure("step_called_with_its_options", got is not None and "method" in got
                  and got["method"] is st["inner"].d["method"][1])
-        S.ensure("ret_details_forwarded", got is not None and bool(got.get("ret_details", False)) == bool(st["ret_details"]))
         S.ensure("caller_options_not_modified", list(st["inner"].d) == ["method"] and list(st["options"].d) == ["correct_tip_offset"]
                  and not any(m is st["inner"] or m is st["options"] for m in I.mutations))
         S.ensure("identifiers_not_modified", st["ids"] == ["compute_tip_position", "correct_tip_offset"]
                  and not any(m is st["ids"] for m in I.mutations))
-        S.ensure("restarts_from_raw_data", st["log"] == ["reset"])
-        if out.kind == "return":
-            S.ensure("details_only_when_asked", (out.value is None) == (not st["ret_details"]))
+        # the raw data are restored before the first step and never again between the steps
+        lg = st["log"]
+        S.ensure("restarts_from_raw_data", bool(lg) and lg[0] == "reset" and "step" in lg
+                 and "reset" not in lg[lg.index("step"):])
+        # (what is returned for ret_details is not part of this property)
 
     S.run(setup, post)
     return S.finish()
